@@ -154,7 +154,8 @@ Section Sink.
     r_tok : nat;
     r_log : list event;     (* what happened during this run *)
     r_retries : Z;
-    r_pending : bool        (* a re-run was scheduled *)
+    r_pending : bool;       (* a re-run was scheduled *)
+    r_killed : bool         (* the kill was issued during this run *)
   }.
 
   (** job.Run: instrumentErrorHandling, sync, store result, (return ticket), handleJobError *)
@@ -180,7 +181,8 @@ Section Sink.
     let pending := goes_on && c_rerun cfg && (0 <? j_retries st)%Z in
     let retries := if pending then (j_retries st - 1)%Z else j_retries st in
     ({| r_err := e'; r_processed := processed; r_tok := tok; r_log := ws_log ws;
-        r_retries := retries; r_pending := pending |},
+        r_retries := retries; r_pending := pending;
+        r_killed := kill_in cfg (ws_calls ws0) (ws_calls ws) |},
      {| j_tok := tok; j_wrapped := wrapped; j_ws := ws; j_retries := retries; j_lastProcessed := lastp |}).
 
   Definition j_init (retries : Z) : jstate :=
@@ -221,6 +223,25 @@ Section Chain.
            | O => [r]
            | S c => r :: chain v cfg f n' (tl adds) c st'
            end
+    end.
+
+  (** a burst of [ext] externally triggered runs (cron ticks, manual runs) that all happen while the
+      re-runs they schedule are still pending (RetryDelay longer than the burst); afterwards the
+      pending re-runs fire in the order they were scheduled, each may schedule another one *)
+  Fixpoint burst (v : eh_variant) (cfg : jcfg) (fuel : nat) (n : nat) (ext queued : nat)
+           (st : jstate Z) : list (runrec Z) :=
+    match fuel with
+    | O => []
+    | S f =>
+      match ext, queued with
+      | O, O => []
+      | S e, _ =>
+        let '(r, st') := run inner v cfg (zseq 0 n) st in
+        r :: burst v cfg f n e (if r_pending r then S queued else queued) st'
+      | O, S q =>
+        let '(r, st') := run inner v cfg (zseq 0 n) st in
+        r :: burst v cfg f n O (if r_pending r then S q else q) st'
+      end
     end.
 End Chain.
 
